@@ -1,0 +1,197 @@
+//! Verification hooks. Compiled only with `--cfg rusty_basic_verif`.
+//!
+//! Offers an in-memory entry point (byte buffers for stdin, stdout and LPT1,
+//! a headless screen, a map backed environment and an instruction budget),
+//! a per-instruction observer and re-exports of interpreter internals that
+//! are driven directly by the verification harness.
+
+use std::cell::RefCell;
+use std::collections::HashMap;
+use std::io::Cursor;
+
+use rusty_parser::UserDefinedTypes;
+use rusty_variant::Variant;
+
+pub use crate::interpreter::arguments::{ArgumentInfo, Arguments};
+pub use crate::interpreter::context::Context;
+pub use crate::interpreter::io::{FileManager, Input, Printer};
+pub use crate::interpreter::print::PrintState;
+pub use crate::interpreter::read_input::ReadInputSource;
+pub use crate::interpreter::screen::Screen;
+pub use crate::interpreter::string_utils::*;
+pub use crate::interpreter::variables::Variables;
+pub use crate::interpreter::write_printer::WritePrinter;
+
+use crate::instruction_generator::InstructionGeneratorResult;
+use crate::interpreter::Stdlib;
+use crate::interpreter::interpreter_trait::InterpreterTrait;
+use crate::interpreter::main::Interpreter;
+use crate::{RuntimeError, RuntimeErrorPos};
+
+/// The message of the panic that ends a run whose instruction budget is exhausted.
+pub const BUDGET_EXHAUSTED: &str = "VERIF_BUDGET_EXHAUSTED";
+
+/// What the observer sees before each instruction is executed.
+#[derive(Clone, Debug, PartialEq, Eq)]
+pub struct Step {
+    /// The address of the instruction about to be executed.
+    pub pc: usize,
+    /// Depths of: value stack, register stack, var path stack, by ref stack,
+    /// return address stack, go sub address stack, stacktrace.
+    pub depths: [usize; 7],
+    /// Number of context states.
+    pub states: usize,
+    /// Number of memory blocks.
+    pub memory_blocks: usize,
+}
+
+struct Observer {
+    budget: u64,
+    steps: u64,
+    trace: Option<Vec<Step>>,
+}
+
+thread_local! {
+    static OBSERVER: RefCell<Option<Observer>> = const { RefCell::new(None) };
+}
+
+/// Called by the fetch-execute loop before every instruction.
+pub fn on_instruction(pc: usize, depths: [usize; 7], context: &Context) {
+    let exhausted = OBSERVER.with(|o| {
+        let mut o = o.borrow_mut();
+        match o.as_mut() {
+            Some(observer) => {
+                observer.steps += 1;
+                if let Some(trace) = observer.trace.as_mut() {
+                    trace.push(Step {
+                        pc,
+                        depths,
+                        states: context.verif_states().len(),
+                        memory_blocks: context.verif_memory_blocks().len(),
+                    });
+                }
+                observer.steps > observer.budget
+            }
+            None => false,
+        }
+    });
+    if exhausted {
+        panic!("{}", BUDGET_EXHAUSTED);
+    }
+}
+
+pub struct HeadlessScreen {}
+
+impl Screen for HeadlessScreen {
+    fn cls(&self) -> Result<(), RuntimeError> {
+        Ok(())
+    }
+
+    fn background_color(&self, _color: i32) -> Result<(), RuntimeError> {
+        Ok(())
+    }
+
+    fn foreground_color(&self, _color: i32) -> Result<(), RuntimeError> {
+        Ok(())
+    }
+
+    fn move_to(&self, _row: u16, _col: u16) -> Result<(), RuntimeError> {
+        Ok(())
+    }
+
+    fn show_cursor(&self) -> Result<(), RuntimeError> {
+        Ok(())
+    }
+
+    fn hide_cursor(&self) -> Result<(), RuntimeError> {
+        Ok(())
+    }
+
+    fn get_view_print(&self) -> Option<(usize, usize)> {
+        None
+    }
+
+    fn set_view_print(&mut self, _start_row: usize, _end_row: usize) {}
+
+    fn reset_view_print(&mut self) {}
+}
+
+#[derive(Default)]
+pub struct MapStdlib {
+    pub env: HashMap<String, String>,
+}
+
+impl Stdlib for MapStdlib {
+    fn system(&self) {}
+
+    fn get_env_var(&self, name: &str) -> String {
+        self.env.get(name).cloned().unwrap_or_default()
+    }
+
+    fn set_env_var(&mut self, name: String, value: String) {
+        self.env.insert(name, value);
+    }
+}
+
+/// The observable outcome of an in-memory run.
+pub struct RunOutcome {
+    pub result: Result<(), RuntimeErrorPos>,
+    pub stdout: Vec<u8>,
+    pub lpt1: Vec<u8>,
+    /// The module-level variables, in creation order.
+    pub globals: Vec<(String, Variant)>,
+    /// Number of instructions executed.
+    pub steps: u64,
+    /// The per-instruction trace, if it was requested.
+    pub trace: Option<Vec<Step>>,
+    /// `(states, memory blocks)` of the context at the end of the run.
+    pub final_context: (usize, usize),
+}
+
+/// Runs the given instructions with in-memory devices.
+///
+/// Panics with `BUDGET_EXHAUSTED` if more than `budget` instructions are executed.
+pub fn run_in_memory(
+    instruction_generator_result: InstructionGeneratorResult,
+    user_defined_types: UserDefinedTypes,
+    stdin: &[u8],
+    budget: u64,
+    with_trace: bool,
+) -> RunOutcome {
+    OBSERVER.with(|o| {
+        *o.borrow_mut() = Some(Observer {
+            budget,
+            steps: 0,
+            trace: if with_trace { Some(vec![]) } else { None },
+        })
+    });
+    let mut interpreter = Interpreter::new(
+        MapStdlib::default(),
+        ReadInputSource::new(Cursor::new(stdin.to_vec())),
+        WritePrinter::new(Vec::<u8>::new()),
+        WritePrinter::new(Vec::<u8>::new()),
+        HeadlessScreen {},
+        user_defined_types,
+    );
+    let result = interpreter.interpret(instruction_generator_result);
+    let (steps, trace) = OBSERVER.with(|o| {
+        let observer = o.borrow_mut().take().unwrap();
+        (observer.steps, observer.trace)
+    });
+    let stdout = interpreter.stdout().verif_inner().clone();
+    let lpt1 = interpreter.lpt1().verif_inner().clone();
+    let globals = interpreter.context().global_variables().verif_entries();
+    let final_context = (
+        interpreter.context().verif_states().len(),
+        interpreter.context().verif_memory_blocks().len(),
+    );
+    RunOutcome {
+        result,
+        stdout,
+        lpt1,
+        globals,
+        steps,
+        trace,
+        final_context,
+    }
+}
